@@ -1,6 +1,7 @@
 package main
 
 import (
+	"net/http/httptest"
 	"syscall"
 
 	"bytes"
@@ -189,6 +190,55 @@ func runC19(cfg Config) {
 			monitor("a truncated protocol message is accepted", "proto.read bytes="+hx(b[:k]), got, "")
 		}
 	}
+	// (5) an HTTP PUT to the index handler: the body is parsed as an index; the announced Content-Length is as
+	// untrusted as the body.  No panic, memory in proportion to what was actually sent, malformed input refused.
+	{
+		dir := filepath.Join(cfg.Work, "c19-idx")
+		os.MkdirAll(dir, 0755)
+		ls, err := desync.NewLocalIndexStore(dir)
+		if err == nil {
+			h := desync.NewHTTPIndexHandler(ls, true, "")
+			idx := desync.Index{Index: desync.FormatIndex{FeatureFlags: desync.CaFormatSHA512256, ChunkSizeMin: 16, ChunkSizeAvg: 64, ChunkSizeMax: 4096}}
+			for k := 0; k < 20; k++ {
+				idx.Chunks = append(idx.Chunks, desync.IndexChunk{ID: desync.Digest.Sum([]byte{byte(k)}), Start: uint64(k * 100), Size: 100})
+			}
+			var vb bytes.Buffer
+			idx.WriteTo(&vb)
+			valid := vb.Bytes()
+			for it := 0; it < cfg.N(60, 1500); it++ {
+				body, tag := valid, "valid"
+				switch it % 4 {
+				case 1:
+					body, tag = valid[:rng.Intn(len(valid))], "truncated"
+				case 2:
+					body, tag = randBytes(rng, rng.Intn(200)), "random"
+				case 3:
+					body = append([]byte{}, valid...)
+					binary.LittleEndian.PutUint64(body[rng.Intn(len(body)/8)*8:], interestingU64[rng.Intn(len(interestingU64))])
+					tag = "mutated"
+				}
+				announced := []int64{int64(len(body)), int64(len(body)) + 1, 1 << 20, 128 << 20, 1 << 31, 1 << 40, 1 << 62, -1}[rng.Intn(8)]
+				req := httptest.NewRequest("PUT", "/put.caibx", bytes.NewReader(body))
+				req.ContentLength = announced
+				rec := httptest.NewRecorder()
+				panicked := ""
+				alloc := measureAlloc(func() {
+					panicked = guard(func() string { h.ServeHTTP(rec, req); return "" })
+				})
+				caseLine := fmt.Sprintf("http.index.put body=%s len=%d announced-content-length=%d bytes=%s", tag, len(body), announced, hx(body))
+				rep.Count(caseLine, true, "index-put:"+tag, fmt.Sprintf("index-put-status:%d", rec.Code))
+				if panicked != "" {
+					monitor("the index handler panicked on a PUT", caseLine, panicked, "")
+				}
+				if alloc > uint64(64*len(body))+1<<20 {
+					monitor(fmt.Sprintf("a PUT of %d bytes to the index handler allocated %d bytes (announced Content-Length %d)", len(body), alloc, announced), caseLine, "", "")
+				}
+				if _, derr := desync.IndexFromReader(bytes.NewReader(body)); derr != nil && rec.Code < 400 {
+					monitor(fmt.Sprintf("a body that is not an index was answered with status %d", rec.Code), caseLine, "", "")
+				}
+			}
+		}
+	}
 	rep.Write(cfg.Out)
 }
 
@@ -352,7 +402,59 @@ func runC13(cfg Config) {
 		rep.Compare(m, line, implUntar, nil)
 		rep.Count(line, true, "testdata")
 	}
+	c13CLI(cfg, rep, rng, monitor)
 	rep.Write(cfg.Out)
+}
+
+// c13CLI: the real `desync tar`: the file it leaves at the output path is the archive of the tree (byte for byte what
+// the library writes for it, well-formed, nothing after it) — also when the path held a longer archive before
+func c13CLI(cfg Config, rep *Report, rng *rand.Rand, monitor func(what, caseLine, impl string)) {
+	bin := desyncBin()
+	if bin == "" {
+		rep.Notes = append(rep.Notes, "desync binary not built: command-line tar runs skipped")
+		return
+	}
+	dir := filepath.Join(cfg.Work, "cli13")
+	defer os.RemoveAll(dir)
+	for it := 0; it < cfg.N(4, 40); it++ {
+		out := filepath.Join(dir, "out.catar")
+		os.RemoveAll(dir)
+		os.MkdirAll(dir, 0755)
+		sizes := []int{25 + rng.Intn(20), 1 + rng.Intn(4), 8 + rng.Intn(8)} // a big tree, then a small one, then a medium one
+		if it%2 == 1 {
+			sizes = []int{2, 30, 3}
+		}
+		for round, nfiles := range sizes {
+			tree := filepath.Join(dir, fmt.Sprintf("tree%d", round))
+			os.MkdirAll(filepath.Join(tree, "sub"), 0755)
+			for k := 0; k < nfiles; k++ {
+				d := []string{"", "sub"}[k%2]
+				os.WriteFile(filepath.Join(tree, d, fmt.Sprintf("f%03d", k)), randBytes(rng, rng.Intn(300)), 0644)
+			}
+			var want bytes.Buffer
+			if err := desync.Tar(context.Background(), &want, desync.NewLocalFS(tree, desync.LocalFSOptions{})); err != nil {
+				continue
+			}
+			r := runCLI(bin, nil, nil, 60*time.Second, "tar", out, tree)
+			got, _ := os.ReadFile(out)
+			caseLine := fmt.Sprintf("cli.tar it=%d round=%d files=%d archive=%d previous-file=%v", it, round, nfiles, want.Len(), round > 0)
+			rep.Count(caseLine, true, "cli.tar", fmt.Sprintf("cli-exit0:%v", r.exit == 0))
+			if r.exit != 0 {
+				monitor("desync tar failed on a plain tree: "+clip(r.stderr, 200), caseLine, "")
+				continue
+			}
+			if err := catarWellFormed(got); err != nil {
+				monitor("the file desync tar leaves is not a well-formed catar: "+err.Error(), caseLine, "")
+			} else if !bytes.Equal(got, want.Bytes()) {
+				monitor(fmt.Sprintf("the file desync tar leaves (%d bytes) is not the archive of the tree (%d bytes)", len(got), want.Len()), caseLine, "")
+			}
+			// to stdout
+			r2 := runCLI(bin, nil, nil, 60*time.Second, "tar", "-", tree)
+			if r2.exit == 0 && r2.stdout != want.String() {
+				monitor("desync tar to stdout does not write the archive of the tree", caseLine+" stdout", "")
+			}
+		}
+	}
 }
 
 func implBst(line string) string {
